@@ -1,3 +1,22 @@
-from simlab.profiles.gsprof import make_module_api, W_C08
+"""C08: DMRG optimisation on the chain world (runs 0,1,2 mod 4) and two-site tree optimisation on the tree world (3 mod 4)."""
+import random
+from simlab import session
+from simlab.profiles.gsprof import GsProfile, W_C08
+from simlab.profiles.treeprof import TreeProfile
+
 ID = "C08"
-generate_and_run, replay = make_module_api("C08", W_C08)
+_P = {"chain": GsProfile("C08", W_C08), "tree": TreeProfile("C08")}
+
+
+def generate_and_run(seed, index, tier):
+    fam = "tree" if index % 4 == 3 else "chain"
+    prof = _P[fam]
+    rnd = random.Random(seed)
+    header = prof.gen_header(rnd, tier)
+    header["tier"] = tier
+    header["family"] = fam
+    return session._run(prof, header, None, rnd, prof.nsteps(rnd, tier), tier)
+
+
+def replay(plan):
+    return session.replay(_P[plan["header"].get("family", "chain")], plan)
